@@ -70,8 +70,26 @@ def conv (j : Json) : R Json := do
                ("slots_to_m", Json.arr #[jInt (slotsToM a b).1, jInt (slotsToM a b).2]),
                ("m_to_freq", Json.arr #[jInt (mToFreq n m grid).1, jInt (mToFreq n m grid).2])]
 
+def getKind (j : Json) : R NodeKind := do
+  match ← getStr j with
+  | "R" => return NodeKind.roadm
+  | "T" => return NodeKind.trx
+  | _ => return NodeKind.line
+
+/-- the graph walk of build_oms_list: {"kind": ["R","T","L",…], "succ": [[…],…]} -> element lists, back references -/
+def walkOp (j : Json) : R Json := do
+  let g : Net := { kind := ← fList getKind j "kind", succ := ← fList (getList getNat) j "succ" }
+  match buildWalks g with
+  | .error e => return jErr e
+  | .ok l =>
+    let nodes := List.range g.size
+    return jObj [("ok", jObj [("oms", jList (jList jNat) l),
+                               ("oms_id", jList (fun i => jOpt jNat (omsIdOf l i)) nodes),
+                               ("oms_list", jList (fun i => jList jNat (omsListOf l i)) nodes),
+                               ("reversed", jList (fun i => jOpt jNat (reversedOms l i)) (List.range l.length))])]
+
 def handlers : List (String × Handler) :=
   [("c15.build", build), ("c15.align", align), ("c15.common", common), ("c15.bitmap", bitmap), ("c15.create", create),
-   ("c15.insert", insert), ("c15.conv", conv)]
+   ("c15.insert", insert), ("c15.conv", conv), ("c15.walk", walkOp)]
 
 end Gnpy.Drv.C15
